@@ -7,7 +7,9 @@ PROP = dict(
                "addNode and a non-coordinator's mergeClusterStatus, with different self nodes and URIs ordered unlike the ids, must yield exactly the owner list of the model: "
                "min(max(r,1),n) distinct members, the ring successors of sortedIDs[jump(partition,n)]. shardNodes/ShardNodes/ownsShard/containsShards/"
                "executor.shardsByNode/api.validateShardOwnership are compared with membership in that list on (index, shard) pairs that cover every partition for 3 index names. "
-               "A rapid unit repeats this with generated ids.",
+               "Membership history: followers built by successive status messages and by one status message then receive, for every non-empty set of members other than themselves and the coordinator, ONE ClusterStatus that drops the whole set "
+               "(adjacent ids, first, last, all but two) and afterwards the full list again; after each message the follower must list exactly the announced members and compute the model's owners. "
+               "A rapid unit repeats all of this with generated ids.",
     level_note="Exhaustive only within the stated bounds. Trusted: my 40-line model (fnv64a partition, jump hash transcribed from the paper, ring order documented in docs/faq.md). "
                "Static host lists (cluster disabled) are excluded as in the property text. holderSyncer/holderCleaner use ownsShard/containsShards, which are the functions compared; "
                "their callers are exercised by C11/C21.",
